@@ -73,14 +73,16 @@ PROPS = {
     "C11": {"level": "exploration", "assumptions": BASE_ASSUME + ["handleConn is driven over net.Pipe in lock step; no system D-Bus (calls to peer daemons fail fast and are ignored by the code); distinct recordings start in distinct milliseconds (the sender paces frames); altitude >= 0 (go-cptv does not store negative altitudes)"],
             "parts": [{"engine": "e2e", "test": "TestVF_C11", "quick": (4, 150), "thorough": (16, 3000), "shrinktime": "10s"}]},
     "C12": {"level": "exploration", "assumptions": MP_ASSUME + ["sink faults are injected by call ordinal on mock sinks; the real file recorder's own failure modes are exercised by the e2e checks"],
-            "parts": [{"engine": "mp", "test": "TestVF_C12", "quick": (4, 1000), "thorough": (16, 30000)}]},
+            "parts": [{"engine": "mp", "test": "TestVF_C12", "quick": (4, 1000), "thorough": (16, 30000)},
+                      {"engine": "mp", "test": "TestVF_C12_SingleFault", "quick": (4, 60), "thorough": (16, 1500), "shrinktime": "5s"}]},
     "C16": {"level": "exploration", "assumptions": BASE_ASSUME + ["the harness does not own the Go scheduler: interleavings are those produced under generated perturbation (GOMAXPROCS, spins, yields, pauses); the race detector reports races on executions that occur", "ring capacity >= 2 (preview-secs*fps + trigger-frames >= 2)", "the D-Bus transport itself is not run: the service methods are called directly"],
             "parts": [{"engine": "e2e", "race": True, "test": "TestVF_C16", "quick": (4, 40), "thorough": (16, 500), "shrinktime": "15s", "quick_timeout": 600}]},
     "C17": {"level": "exploration", "assumptions": MP_ASSUME,
             "parts": [{"engine": "mp", "test": "TestVF_C17", "quick": (4, 750), "thorough": (16, 25000)},
                       {"engine": "e2e", "test": "TestVF_C17_E2E", "quick": (4, 15), "thorough": (16, 250), "shrinktime": "10s"}]},
     "C18": {"level": "exploration", "assumptions": BASE_ASSUME + ["the harness does not own the scheduler: relative speeds of reader and writer are perturbed through GOMAXPROCS, CPU-burning goroutines, sender pacing and chunking; the race detector reports races on executions that occur", "one connection per output directory (file names have one-second resolution)"],
-            "parts": [{"engine": "tw", "race": True, "test": "TestVF_C18", "quick": (4, 12), "thorough": (16, 150), "shrinktime": "15s", "quick_timeout": 600}]},
+            "parts": [{"engine": "tw", "race": True, "test": "TestVF_C18", "quick": (4, 12), "thorough": (16, 150), "shrinktime": "15s", "quick_timeout": 600},
+                      {"engine": "tw", "race": True, "test": "TestVF_C18_Rotation", "kind": "plain", "tiers": ["thorough"]}]},
     "C19": {
         "level": "exploration",
         "assumptions": BASE_ASSUME + ["every Move is preceded by a write into the current slot, as in both callers"],
